@@ -1002,6 +1002,31 @@ Proof. unfold akeys, builtin_attrs. rewrite map_map. simpl. apply map_id. Qed.
 Lemma main_attrs_have_builtins B C b : In b B -> In b (akeys (builtin_attrs (B ++ C))).
 Proof. intros H. rewrite builtin_attrs_keys. apply in_or_app; auto. Qed.
 
+Lemma main_only_empty_incl (B C : list name) :
+  filter (fun c => negb (existsb (String.eqb c) B)) C = [] -> forall b, In b (B ++ C) -> In b B.
+Proof.
+  intros H b Hin. apply in_app_or in Hin. destruct Hin as [Hb|Hc]; auto.
+  destruct (existsb (String.eqb b) B) eqn:E.
+  - apply existsb_exists in E. destruct E as (x & Hx & Heq). apply String.eqb_eq in Heq. subst; auto.
+  - exfalso. assert (Hf : In b (filter (fun c => negb (existsb (String.eqb c) B)) C)).
+    { apply filter_In. split; auto. rewrite E. reflexivity. }
+    rewrite H in Hf. inversion Hf.
+Qed.
+
+(* when init_built_in_globals defines every name module main has at start-up (main_only = []), every
+   started module sees all of them *)
+Theorem startup_names_in_every_module SrcId Body loader compiler (B C : list name) fm evs id b :
+  filter (fun c => negb (existsb (String.eqb c) B)) C = [] ->
+  let st := run_events SrcId Body loader compiler B fm (init_state (builtin_attrs (B ++ C))) evs in
+  id = 0 \/ In id (ran st) -> In b (B ++ C) -> exists v, alookup (attrs_of st id) b = Some v.
+Proof.
+  intros H st Hid Hb.
+  apply (builtins_in_every_module SrcId Body loader compiler B fm (builtin_attrs (B ++ C))); auto.
+  - apply main_attrs_have_builtins.
+  - apply (main_only_empty_incl B C); auto.
+Qed.
+Print Assumptions startup_names_in_every_module.
+
 (* cycle_is_import_error: a self import (the body of "m" imports "m") and a 2-cycle *)
 Example cycle_hypotheses_satisfiable :
   let st := w_run w_init [EStartImport "m"] in
@@ -1141,65 +1166,61 @@ Section MechReach.
   Arguments bind_alias : simpl never.
   Arguments note_main_only : simpl never.
 
-  Lemma exec_ok : forall fuel,
-    (forall l env x, RX x -> res_ok (exec prog cm B fm fuel l env x)) /\
-    (forall s env x, RX x -> res_ok (exec1 prog cm B fm fuel s env x)) /\
-    (forall env x w, RX x -> res_ok (call_value prog cm B fm fuel env x w)) /\
-    (forall ts src x, RX x -> res_ok (exec_tops prog cm B fm fuel ts src x)).
+  Lemma run_task_ok : forall fuel tk x, RX x -> res_ok (run_task prog cm B fm fuel tk x).
   Proof.
-    induction fuel as [|fuel (IHe & IH1 & IHc & IHt)].
-    { repeat split; intros; simpl; exact I. }
-    repeat split.
-    - intros l env x Hx. destruct l as [|s rest]; simpl; [exact Hx|].
-      pose proof (IH1 s env x Hx) as H. destruct (exec1 prog cm B fm fuel s env x); simpl in *; auto.
-    - intros s env x Hx. destruct s; simpl.
-      + apply get_global_ok; auto. intros x1 _ H1. exact H1.
-      + apply get_global_ok; auto. intros x1 _ H1. apply get_global_ok; auto. intros x2 w H2. exact H2.
+    induction fuel as [|fuel IH]; intros tk x Hx; simpl; [exact I|].
+    destruct tk as [l env|s env|env w|ts src].
+    - destruct l as [|s rest]; [exact Hx|].
+      pose proof (IH (TkExec1 s env) x Hx) as H.
+      destruct (run_task prog cm B fm fuel (TkExec1 s env) x); simpl in *; auto.
+    - destruct s.
+      + apply get_global_ok; [assumption|]. intros x1 _ H1. exact H1.
+      + apply get_global_ok; [assumption|]. intros x1 _ H1. apply get_global_ok; [assumption|]. intros x2 w H2. exact H2.
       + apply bind_s_ok; [apply do_step_ok; auto|]. intros x1 _ H1. exact H1.
       + apply bind_s_ok; [apply do_step_ok; auto|]. intros x1 o H1. destruct o; simpl; auto.
         * apply bind_s_ok; [apply do_step_ok; auto|]. intros x2 _ H2. apply bind_alias_ok; auto.
-        * pose proof (IHt b (src_of_mod x1 id) x1 H1) as Ht.
-          destruct (exec_tops prog cm B fm fuel b (src_of_mod x1 id) x1); simpl in *; auto.
+        * pose proof (IH (TkTops b (src_of_mod x1 id)) x1 H1) as Ht.
+          destruct (run_task prog cm B fm fuel (TkTops b (src_of_mod x1 id)) x1); simpl in *; auto.
           apply bind_s_ok; [apply do_step_ok; auto|]. intros x3 _ H3.
           apply bind_s_ok; [apply do_step_ok; auto|]. intros x4 _ H4. apply bind_alias_ok; auto.
-      + apply get_global_ok; auto. intros x1 _ H1. apply resolve_ok; auto. intros x2 w H2.
+      + apply get_global_ok; [assumption|]. intros x1 _ H1. apply resolve_ok; [assumption|]. intros x2 w H2.
         destruct w; simpl; auto. apply bind_s_ok; [apply do_step_ok; auto|]. intros x3 o H3.
         destruct o; simpl; auto.
-      + apply resolve_ok; auto. intros x1 w H1. destruct w; simpl; auto.
+      + apply resolve_ok; [assumption|]. intros x1 w H1. destruct w; simpl; auto.
         apply bind_s_ok; [apply do_step_ok; auto|]. intros x2 _ H2. exact H2.
-      + apply get_global_ok; auto. intros x1 w H1. apply IHc; auto.
-      + apply resolve_ok; auto. intros x1 w H1. destruct w; simpl; auto.
-        apply bind_s_ok; [apply do_step_ok; auto|]. intros x2 o H2. destruct o; simpl; auto. apply IHc; auto.
+      + apply get_global_ok; [assumption|]. intros x1 w H1. apply IH; auto.
+      + apply resolve_ok; [assumption|]. intros x1 w H1. destruct w; simpl; auto.
+        apply bind_s_ok; [apply do_step_ok; auto|]. intros x2 o H2. destruct o; simpl; auto; apply IH; auto.
       + apply bind_s_ok; [apply do_step_ok; auto|]. intros; simpl; exact I.
-      + apply get_global_ok; auto. intros x1 _ H1.
-        destruct k as [|[|[|[|[|[|[|]]]]]]]; try (destruct p);
+      + apply get_global_ok; [assumption|]. intros x1 _ H1.
+        destruct k as [|[q|[q|q|]|]];
           repeat (first [apply get_global_ok; [auto using note_ok|]; intros | exact I | assumption | apply note_ok; assumption]).
       + apply bind_s_ok; [apply do_step_ok; auto|]. intros x1 _ H1.
-        match goal with |- res_ok (match exec _ _ _ _ _ ?bd ?ev ?xx with _ => _ end) =>
-          assert (Hb : res_ok (exec prog cm B fm fuel bd ev xx)) by (apply IHe; exact H1);
-          destruct (exec prog cm B fm fuel bd ev xx) as [env' x2|h e x2|e x2| |why]; simpl in *; auto
+        match goal with |- res_ok (match run_task _ _ _ _ _ ?tk ?xx with _ => _ end) =>
+          assert (Hb : res_ok (run_task prog cm B fm fuel tk xx)) by (apply IH; exact H1);
+          destruct (run_task prog cm B fm fuel tk xx) as [env' x2|h e x2|e x2| |why]; simpl in *; auto
         end.
         * apply bind_s_ok; [apply do_step_ok; auto|]. intros x3 _ H3. exact H3.
         * destruct (Nat.eqb h (nexth x)); simpl; auto.
-          apply get_global_ok; auto. intros x3 _ H3. apply get_global_ok; auto. intros x4 _ H4.
-          apply get_global_ok; [exact H4|]. intros x6 _ H6. apply get_global_ok; auto. intros x7 _ H7.
-          apply get_global_ok; auto. intros x8 _ H8. exact H8.
-      + pose proof (IHe body ([] :: env) x Hx) as Hb.
-        destruct (exec prog cm B fm fuel body ([] :: env) x); simpl in *; auto.
-    - intros env x w Hx. simpl. destruct w; simpl; auto.
+          apply get_global_ok; [assumption|]. intros x3 _ H3. apply get_global_ok; [assumption|]. intros x4 _ H4.
+          apply get_global_ok; [exact H4|]. intros x6 _ H6. apply get_global_ok; [assumption|]. intros x7 _ H7.
+          apply get_global_ok; [assumption|]. intros x8 _ H8. exact H8.
+      + pose proof (IH (TkExec body ([] :: env)) x Hx) as Hb.
+        destruct (run_task prog cm B fm fuel (TkExec body ([] :: env)) x); simpl in *; auto.
+    - destruct w; simpl; auto.
       destruct (find_fn prog f) as [body|]; simpl; auto.
       apply bind_s_ok; [apply do_step_ok; auto|]. intros x1 _ H1.
-      pose proof (IHe body [[]] x1 H1) as Hb.
-      destruct (exec prog cm B fm fuel body [[]] x1); simpl in *; auto.
+      pose proof (IH (TkExec body [[]]) x1 H1) as Hb.
+      destruct (run_task prog cm B fm fuel (TkExec body [[]]) x1); simpl in *; auto.
       apply bind_s_ok; [apply do_step_ok; auto|]. intros x3 _ H3. exact H3.
-    - intros ts src x Hx. destruct ts as [|t rest]; simpl; [exact Hx|].
+    - destruct ts as [|t rest]; [exact Hx|].
       assert (Hr : res_ok (match t with
-                           | TStmt s => exec1 prog cm B fm fuel s [] x
+                           | TStmt s => run_task prog cm B fm fuel (TkExec1 s []) x
                            | TDef v n => bind_s (do_step prog cm B fm x (EDefineGlobal (var_name v) (VNum n))) (fun x1 _ => RNormal [] x1)
                            | TFn f _ => bind_s (do_step prog cm B fm x (EDefineGlobal (fn_name f) (VFn (active (ms x)) (fn_key src f)))) (fun x1 _ => RNormal [] x1)
                            end)).
       { destruct t.
-        - apply IH1; auto.
+        - apply IH; auto.
         - apply bind_s_ok; [apply do_step_ok; auto|]. intros x1 _ H1. exact H1.
         - apply bind_s_ok; [apply do_step_ok; auto|]. intros x1 _ H1. exact H1. }
       destruct (match t with TStmt s => _ | TDef v n => _ | TFn f _ => _ end); simpl in *; auto.
@@ -1208,10 +1229,12 @@ Section MechReach.
   Theorem mech_final_state_reachable fuel st :
     final_state prog cm B fm fuel core = Some st -> reach st.
   Proof.
-    unfold final_state. destruct prog as [|[ts| |k] rest]; try discriminate.
-    assert (H0 : RX (mech_init B core)) by (exists []; reflexivity).
-    destruct (exec_ok fuel) as (_ & _ & _ & Ht). specialize (Ht ts 0 _ H0).
-    destruct (exec_tops _ _ _ _ fuel ts 0 (mech_init B core)); simpl in *; intros E; inversion E; subst; auto.
+    unfold final_state. intros E.
+    assert (Hts : forall ts, res_ok (exec_tops prog cm B fm fuel ts 0 (mech_init B core))).
+    { intros ts. apply run_task_ok. exists []; reflexivity. }
+    destruct prog as [|[ts| |k] rest] eqn:Ep; try discriminate.
+    specialize (Hts ts).
+    destruct (exec_tops (MOk ts :: rest) cm B fm fuel ts 0 (mech_init B core)); simpl in *; inversion E; subst; auto.
   Qed.
 
   (* e.g.: whatever program runs, whatever the fuel, no module body is started twice *)
